@@ -98,20 +98,36 @@ def shard(col, module, mode, pop_bound, limit, pairs):
         tests, _ = pipe.population(bound=pop_bound, limit=limit)
         groups = [[t] for t in tests] + [list(p) for p in itertools.islice(
             itertools.combinations(tests[:: max(1, len(tests) // 8)], 2), pairs)]
+        # Assertion minimisation (mutation analysis, checked coverage) may legitimately keep any subset
+        # of the generated assertions; the subsets that matter for this property are enumerated:
+        # everything, only assertions whose source is a bare variable, only dotted (field) sources.
+        variants = ("all", "bare-only", "dotted-only") if mode == "SIMPLE" else ("all",)
         for gi, group in enumerate(groups):
-            for strategy, direction in STRATEGIES:
+            for (strategy, direction), variant in itertools.product(STRATEGIES, variants):
                 suite = pipe.suite(group)
                 data = {"module": module, "mode": mode, "strategy": strategy, "direction": direction,
-                        "tests": [t.to_code() for t in group], "pop_bound": pop_bound}
+                        "tests": [t.to_code() for t in group], "pop_bound": pop_bound, "variant": variant}
                 try:
                     pipe.generate_assertions(suite, mode)
                 except Exception as exc:  # noqa: BLE001
                     col.violation(f"C19|{mode}|generate|raises:{type(exc).__name__}", repr(exc)[:300], data)
                     continue
+                if variant != "all":
+                    changed = False
+                    for chrom in suite.test_case_chromosomes:
+                        for st in chrom.test_case.statements():
+                            keep = [a for a in st.assertions
+                                    if ("." in str(getattr(a, "source", ""))) == (variant == "dotted-only")]
+                            if len(keep) != len(st.assertions):
+                                st.assertions[:] = keep
+                                changed = True
+                    if not changed:
+                        continue
+                    col.count(f"variant_{variant}")
                 before = per_test(suite)
                 n_assert = sum(len(r[2]) for rows in before.values() for r in rows)
                 col.count("transitions")
-                col.distinct("states", ("generated", module, mode, gi, n_assert))
+                col.distinct("states", ("generated", module, mode, gi, variant, n_assert))
                 if n_assert:
                     col.count("suites_with_assertions")
                 # ---- stage: minimise
@@ -123,7 +139,7 @@ def shard(col, module, mode, pop_bound, limit, pairs):
                     col.count("minimize_raised")
                 col.count("transitions")
                 after = per_test(suite)
-                col.distinct("states", ("minimized", module, mode, gi, strategy, direction,
+                col.distinct("states", ("minimized", module, mode, gi, variant, strategy, direction,
                                         sum(len(r[2]) for rows in after.values() for r in rows)))
                 for cid, rows in before.items():
                     if cid not in after:
@@ -142,7 +158,7 @@ def shard(col, module, mode, pop_bound, limit, pairs):
                                     data, rank=len(group) * 100 + len(code))
                 # ---- stage: export
                 try:
-                    _, text = pipe.export(suite, name=f"g{gi}_{strategy}_{direction}")
+                    _, text = pipe.export(suite, name=f"g{gi}_{strategy}_{direction}_{variant}")
                 except Exception as exc:  # noqa: BLE001
                     col.violation(f"C19|{mode}|export|raises:{type(exc).__name__}", repr(exc)[:300], data)
                     continue
